@@ -26,6 +26,7 @@ Generated once by harness/mkprops.py from harness/props_table.py + PGProperties/
 -/
 import PGProofs.DemographyMixed
 import PGProofs.DemographyThm
+import PGProofs.EndToEnd2
 
 set_option linter.all false
 set_option pp.fieldNotation.generalized false
@@ -37,16 +38,16 @@ open PG
 theorem mixed_value_in_force : ∀ (o : DemoOpts), o.fixedBroadcast = true → ∀ (events : List Event), (∀ ev ∈ events, Event.WF ev) → ∀ (k : Key), (∀ ev ∈ events, ¬Event.IsDiscrete ev → ¬Event.Touches ev k) → ∀ (count : ℕ), ∀ e ∈ epochsUpTo o events count, ∀ (t : ℚ), e.start ≤ t → ltInf t e.stop = true → Epoch.value e k = specValue (allChanges (sortEvents events)) (popNames (sortEvents events)) k t := @PG.mixed_value_in_force_discrete
 
 /-- schedules mixing all event classes: endpoint mean inside the window -/
-theorem mixed_discretised_mean : ∀ (o : DemoOpts), o.fixedWindowEnd = true → ∀ (events : List Event) (parts : List Part), Event.discretised parts ∈ events → ∀ p ∈ parts, (∀ ev ∈ events, Event.QuietFor p ev) → ∀ (count : ℕ), ∀ e ∈ epochsUpTo o events count, ∀ (en : ℚ), e.stop = some en → p.2.1 ≤ e.start → leInf en p.2.2.1 = true → Epoch.value e p.2.2.2.1 = some ((polyEval p.1 e.start + polyEval p.1 en) / 2) := @PG.mixed_discretised_mean
+theorem mixed_discretised_mean : ∀ (o : DemoOpts), o.fixedWindowEnd = true → ∀ (events : List Event) (parts : List PG.Part), Event.discretised parts ∈ events → ∀ p ∈ parts, (∀ ev ∈ events, Event.QuietFor p ev) → ∀ (count : ℕ), ∀ e ∈ epochsUpTo o events count, ∀ (en : ℚ), e.stop = some en → p.2.1 ≤ e.start → leInf en p.2.2.1 = true → Epoch.value e p.2.2.2.1 = some ((polyEval p.1 e.start + polyEval p.1 en) / 2) := @PG.mixed_discretised_mean
 
 /-- finite windows: the schedule ends with an infinite epoch after an explicit number of epochs and tiles [0, inf) -/
 theorem mixed_terminates : ∀ (o : DemoOpts), o.fixedBroadcast = true → ∀ (events : List Event), (∀ ev ∈ events, Event.WF ev) → (∀ ev ∈ events, Event.FiniteWindows ev) → ∀ (count : ℕ), List.length (stopTimes events) < count → (∃ e ∈ epochsUpTo o events count, e.stop = none) ∧ Tiled (epochsUpTo o events count) := @PG.mixed_terminates
 
 /-- inside a window no epoch is longer than one step (+1e-10) -/
-theorem mixed_epoch_length : ∀ (o : DemoOpts), o.fixedBroadcast = true → ∀ (events : List Event) (parts : List Part), Event.discretised parts ∈ events → ∀ p ∈ parts, 0 < p.2.2.2.2 → ∀ (count : ℕ), ∀ e ∈ epochsUpTo o events count, p.2.1 ≤ e.start → leInf e.start p.2.2.1 = true → ∃ en, e.stop = some en ∧ en - e.start < p.2.2.2.2 + 1 / 10000000000 := @PG.mixed_epoch_length
+theorem mixed_epoch_length : ∀ (o : DemoOpts), o.fixedBroadcast = true → ∀ (events : List Event) (parts : List PG.Part), Event.discretised parts ∈ events → ∀ p ∈ parts, 0 < p.2.2.2.2 → ∀ (count : ℕ), ∀ e ∈ epochsUpTo o events count, p.2.1 ≤ e.start → leInf e.start p.2.2.1 = true → ∃ en, e.stop = some en ∧ en - e.start < p.2.2.2.2 + 1 / 10000000000 := @PG.mixed_epoch_length
 
 /-- grid points are epoch starts -/
-theorem mixed_grid_boundaries : ∀ (o : DemoOpts), o.fixedBroadcast = true → ∀ (events : List Event), (∀ ev ∈ events, Event.WF ev) → (∀ ev ∈ events, Event.FiniteWindows ev) → ∀ (count : ℕ), List.length (stopTimes events) < count → ∀ (parts : List Part), Event.discretised parts ∈ events → ∀ p ∈ parts, ∀ (j : ℕ), leInf (p.2.1 + ↑j * p.2.2.2.2) p.2.2.1 = true → (∀ e ∈ epochsUpTo o events count, e.start < p.2.1 + ↑j * p.2.2.2.2 → e.start + 1 / 10000000000 ≤ p.2.1 + ↑j * p.2.2.2.2) → ∃ e ∈ epochsUpTo o events count, e.start = p.2.1 + ↑j * p.2.2.2.2 := @PG.mixed_grid_boundaries_of_count
+theorem mixed_grid_boundaries : ∀ (o : DemoOpts), o.fixedBroadcast = true → ∀ (events : List Event), (∀ ev ∈ events, Event.WF ev) → (∀ ev ∈ events, Event.FiniteWindows ev) → ∀ (count : ℕ), List.length (stopTimes events) < count → ∀ (parts : List PG.Part), Event.discretised parts ∈ events → ∀ p ∈ parts, ∀ (j : ℕ), leInf (p.2.1 + ↑j * p.2.2.2.2) p.2.2.1 = true → (∀ e ∈ epochsUpTo o events count, e.start < p.2.1 + ↑j * p.2.2.2.2 → e.start + 1 / 10000000000 ≤ p.2.1 + ↑j * p.2.2.2.2) → ∃ e ∈ epochsUpTo o events count, e.start = p.2.1 + ↑j * p.2.2.2.2 := @PG.mixed_grid_boundaries_of_count
 
 /-- epochs tile [0, inf): first starts at 0, consecutive, only the last is infinite, non-empty -/
 theorem tiling : ∀ (o : DemoOpts) (events : List Event) (count : ℕ), let eps := epochsUpTo o events count; (∀ (e : Epoch), List.head? eps = some e → e.start = 0) ∧ (∀ (i : ℕ) (h : i + 1 < List.length eps), eps[i].stop = some eps[i + 1].start) ∧ (∀ (i : ℕ) (h : i < List.length eps), eps[i].stop = none → i + 1 = List.length eps) ∧ (List.length eps < count → ∃ e, List.getLast? eps = some e ∧ e.stop = none) ∧ List.length eps ≤ count ∧ ((∀ ev ∈ events, Event.StepsPos ev) → ∀ e ∈ eps, ∀ (en : ℚ), e.stop = some en → e.start < en) := @PG.epochs_tiling
@@ -99,6 +100,12 @@ theorem split_orientation : type_of% @PG.split_orientation_counterexample := @PG
 /-- a grid point closer than 1e-10 to a boundary is skipped (documented limitation) -/
 theorem grid_point_skipped : List.map (fun e ↦ (e.start, e.stop)) (epochsUpTo { } [Event.discrete [(1 / 10 - 1 / 100000000000, [(Key.size 0, 2)])], Event.discretised [([1, 1], 0, some 1, Key.size 1, 1 / 10)]] 3) = [(0, some (1 / 10 - 1 / 100000000000)), (1 / 10 - 1 / 100000000000, some (1 / 5)), (1 / 5, some (3 / 10))] := @PG.grid_point_skipped
 
+/-- for every epoch the generator produces from the translated user dictionaries and every time inside it, the table the transitions use equals the table read off the epoch -/
+theorem glue_link : ∀ (I : Config.Input), EndToEnd.DictInput I → Config.ValidSetOrder I → ∀ (o : DemoOpts) (count : ℕ), ∀ e ∈ epochsUpTo o (EndToEnd.toEvents I) count, ∀ (t : ℚ), e.start ≤ t → ltInf t e.stop = true → Config.epochTable Config.Variant.current I t = EndToEnd.tableOfEpoch I e := @PG.EndToEnd.epoch_tables_from_demography
+
+/-- the generated epochs tile [0, inf) with boundaries exactly at the positive change times of the input -/
+theorem schedule_from_input : ∀ (I : Config.Input), EndToEnd.DictInput I → ∀ (o : DemoOpts) (count : ℕ), List.length (changeTimes (EndToEnd.toEvents I)) < count → epochsUpTo o (EndToEnd.toEvents I) count ≠ [] ∧ WF (List.map Epoch.toT (epochsUpTo o (EndToEnd.toEvents I) count)) 0 ∧ (∀ t ∈ changeTimes (EndToEnd.toEvents I), 0 < t → ∃ e ∈ epochsUpTo o (EndToEnd.toEvents I) count, e.start = t) ∧ ∀ e ∈ epochsUpTo o (EndToEnd.toEvents I) count, e.start = 0 ∨ e.start ∈ changeTimes (EndToEnd.toEvents I) ∧ 0 < e.start := @PG.EndToEnd.demography_schedule
+
 /-! ## hand-written part: glue, non-vacuity examples, counterexamples -/
 /-- non-vacuity: a schedule with a discrete event and a discretised window tiles [0, ∞) in 6 epochs -/
 theorem example_schedule :
@@ -132,4 +139,6 @@ end PG.C05
 #print axioms PG.C05.historic_window_end
 #print axioms PG.C05.split_orientation
 #print axioms PG.C05.grid_point_skipped
+#print axioms PG.C05.glue_link
+#print axioms PG.C05.schedule_from_input
 #print axioms PG.C05.example_schedule
